@@ -1,6 +1,7 @@
 package c01
 
 import (
+	"os"
 	"context"
 	"crypto/aes"
 	"crypto/cipher"
@@ -479,6 +480,85 @@ func writeAll(c netio.Conn, data []byte, sizes []int, path int, eofWithData bool
 				return fmt.Errorf("Write(%d) reported %d", s, n)
 			}
 			off += s
+		}
+	}
+	return c.CloseWrite()
+}
+
+// Mixed writer: the write side of one connection is driven by a sequence of *different* write-side
+// operations, as real callers do (a handler writes a greeting and then io.Copy's a body; io.Copy from
+// a body that turns out to be empty, or whose Read times out before any byte, followed by more
+// output). Modes per segment:
+const (
+	mixWrite          = 0 // Write(segment)
+	mixReadFrom       = 1 // ReadFrom(source holding the segment)
+	mixEmptyThenWrite = 2 // ReadFrom(source that is at EOF at once), then Write(segment)
+	mixFailThenWrite  = 3 // ReadFrom(source whose first Read fails with a timeout), then Write(segment)
+	mixEmptyThenRF    = 4 // ReadFrom(empty source), then ReadFrom(source holding the segment)
+	mixFailThenRF     = 5 // ReadFrom(failing source), then ReadFrom(source holding the segment)
+	numMix            = 6
+)
+
+type failingSource struct{}
+
+func (failingSource) Read([]byte) (int, error) { return 0, os.ErrDeadlineExceeded }
+
+type emptySource struct{}
+
+func (emptySource) Read([]byte) (int, error) { return 0, io.EOF }
+
+// writeMixed sends data through c segment by segment; segment i uses modes[i] (segments beyond
+// len(modes) use Write or ReadFrom according to path) and then closes the write side.
+func writeMixed(c netio.Conn, data []byte, sizes []int, modes []int, path int, eofWithData bool) (err error) {
+	defer func() {
+		if err != nil {
+			c.CloseWrite()
+		}
+	}()
+	rf, ok := c.(io.ReaderFrom)
+	if !ok {
+		return errors.New("conn has no ReadFrom")
+	}
+	off := 0
+	for i, s := range sizes {
+		mode := mixWrite
+		if path == pathRF {
+			mode = mixReadFrom
+		}
+		if i < len(modes) {
+			mode = modes[i]
+		}
+		seg := data[off : off+s]
+		off += s
+		switch mode {
+		case mixEmptyThenWrite, mixEmptyThenRF:
+			if n, err := rf.ReadFrom(emptySource{}); err != nil || n != 0 {
+				return fmt.Errorf("segment %d: ReadFrom(empty source) = %d, %v", i, n, err)
+			}
+		case mixFailThenWrite, mixFailThenRF:
+			// the source's error belongs to the caller; the connection itself must stay usable
+			if n, _ := rf.ReadFrom(failingSource{}); n != 0 {
+				return fmt.Errorf("segment %d: ReadFrom(failing source) reported %d bytes", i, n)
+			}
+		}
+		switch mode {
+		case mixWrite, mixEmptyThenWrite, mixFailThenWrite:
+			n, err := c.Write(seg)
+			if err != nil {
+				return fmt.Errorf("segment %d: Write(%d): %w", i, s, err)
+			}
+			if n != s {
+				return fmt.Errorf("segment %d: Write(%d) reported %d", i, s, n)
+			}
+		default:
+			pr := &planReader{data: seg, sizes: []int{s}, eofWithData: eofWithData}
+			n, err := rf.ReadFrom(pr)
+			if err != nil {
+				return fmt.Errorf("segment %d: ReadFrom: %w", i, err)
+			}
+			if int(n) != s {
+				return fmt.Errorf("segment %d: ReadFrom reported %d bytes, source had %d", i, n, s)
+			}
 		}
 	}
 	return c.CloseWrite()
